@@ -68,8 +68,20 @@ pub fn reconcile_aliases(crate_parsed_data: &mut BTreeMap<CrateName, ParsedData>
         parsed_data.aliases.sort();
         parsed_data.consts.sort();
 
-        // put back our import types for file generation.
-        parsed_data.import_types = import_types;
+        // put back our import types for file generation. An import of a serde-renamed type
+        // has to name the type the way the file of its crate defines it.
+        parsed_data.import_types = import_types
+            .into_iter()
+            .map(|mut import| {
+                if let Some(renamed) = serde_renamed
+                    .get(&import.type_name)
+                    .and_then(|by_crate| by_crate.get(&import.base_crate))
+                {
+                    import.type_name = renamed.clone();
+                }
+                import
+            })
+            .collect();
     }
 }
 
